@@ -52,6 +52,7 @@ func main() {
 	replayFile := flag.String("replay", "", "replay file")
 	trace := flag.Bool("trace", false, "include the readable trace")
 	keepTape := flag.Bool("tape", false, "include the tape of every run")
+	canary := flag.String("canary", "", "race-oracle canary: 'shared' (two tasks write one variable: the race detector must halt the process) or 'private' (each task writes its own: it must not)")
 	selftest := flag.Bool("selftest", false, "reference self-test only")
 	noSelftest := flag.Bool("noselftest", false, "skip the reference self-test")
 	flag.Parse()
@@ -62,6 +63,11 @@ func main() {
 		}
 	}
 	if *selftest {
+		return
+	}
+	if *canary != "" {
+		runCanary(*canary == "shared")
+		fmt.Println("canary finished without a race report")
 		return
 	}
 	out := bufio.NewWriter(os.Stdout)
